@@ -85,9 +85,39 @@ def run(repo: Repo, rep: Report, tier: str) -> None:
     for n in cfg_b.nodes:
         if n.kind == "stmt" and _pdv_header(n.ast) is not None:
             n_appends += 1
-    rep.floor("PDV append sites in encode_msg", n_appends, 4)
+    rep.counters["PDV append sites in encode_msg"] = n_appends
+
+    def run_b_eval(ds_val, path_val):
+        """predicate B by evaluating encode_msg (sa/minipy.py) on concrete stand-ins of the abstract point"""
+        from ..minipy import Unsupported as _U
+        from .c15 import eval_encode_msg
+
+        if path_val not in (None, NONE) and ds_val in (None, NONE):
+            cases = [("file", b"abcdefghij"), ("file", b"")]
+        elif ds_val == B_FULL:
+            cases = [("memory", b"abcdefghij"), ("memory", b"a")]
+        elif ds_val == B_EMPTY:
+            cases = [("memory", b"")]
+        elif ds_val in (None, NONE) and path_val in (None, NONE):
+            cases = [("none", b"")]
+        else:
+            return None
+        res = set()
+        try:
+            for mode, data in cases:
+                for mx in (0, 8, 16):
+                    got, problem = eval_encode_msg(repo, b"CMD0", data, mode, mx)
+                    if problem is not None:
+                        return None
+                    res.add(any(len(f_) >= 1 and f_[0] & 1 == 0 for f_ in got))
+        except _U:
+            return None
+        return res.pop() if len(res) == 1 else None
 
     def run_b(ds_val, path_val):
+        ev_ = run_b_eval(ds_val, path_val)
+        if ev_ is not None:
+            return ev_
         def on_stmt(n, env):
             h = _pdv_header(n.ast)
             if isinstance(h, tuple):
